@@ -1,7 +1,9 @@
 """C14 -- optimisers leave the lens at the returned solution (structural)."""
 import ast
 from ..core import Result
-from ..pm import AnalysisError, unparse, base_name
+from ..pm import AnalysisError, unparse
+from ..pm import base_name
+from ..match import Code
 from ..paths import ipaths, paths, annotate, callee_names, call_attr
 from ..rat import Ev, Rat, Sym, fn_eval, rat_eq, Inconclusive, ONE
 
@@ -443,8 +445,8 @@ def get_set_symmetry(ctx):
                 f'setting then reading does not return the value set',
                 construct=f'{cn} scaling guards'))
         # location agreement: index expressions used
-        gsrc = unparse(g.node, 2000)
-        usrc = unparse(u.node, 2000)
+        gsrc = Code(P, g)
+        usrc = Code(P, u)
         idx_attrs = ['surface_number']
         for extra in ('coeff_number', 'coeff_index', 'axis'):
             if extra in unparse(P.lookup(cn, '__init__').node, 2000):
